@@ -1,21 +1,242 @@
-(* Props/C09.v — untrusted bytes never crash (AEAD layer so far; other surfaces are being added). *)
-From Kestrel Require Import Bytes Outcome Prims.
-From Kestrel.Model Require Import AeadWrap.
-From Kestrel.Proofs Require Import PrimFacts.
+(* Props/C09.v — property C09: untrusted bytes never crash; bounded work.   PARTIAL (no CLI argv model).
+   Statements only; proofs are in Proofs/ChunksRobust.v, CombineRobust.v, NoiseFacts.v, PrimFacts.v,
+   KeyringFacts.v, KeyringRefine.v.
 
-Theorem C09_aead_open_never_panics : forall P key nonce ct ad,
+   The model is faithful about crashes: every Rust panic site (slice index, copy_from_slice, unwrap/expect,
+   assert, integer under/overflow) is an explicit [Panic] outcome and every model loop that could run away is
+   an explicit [OutOfFuel]; [normal r] means r is Ok or Err.  The theorems exclude Panic and OutOfFuel BY PROOF,
+   one per untrusted-input surface, each for EVERY byte string of EVERY length and — for the file decryptors —
+   every I/O script (short reads, zero-length reads, faults at any call):
+     encrypted file (key mode, password mode, chunk layer), Noise handshake message, AEAD ciphertext,
+     encoded public key, locked private key, keyring text.
+   Preconditions that remain are type invariants of the Rust API, not properties of the untrusted input:
+   a private key / AEAD key has 32 bytes, an IETF nonce has 12 bytes (PrivateKey, [u8; 32], fixed arrays), and
+   encoded keys have passed EncodedPk/EncodedSk::try_from (a total boolean check, [pk_string_ok]/[sk_string_ok]).
+   Bounded work: every Read::read request of a decryptor is at most 65536 + 16 bytes, the only
+   attacker-chosen length field is compared with the chunk size before it sizes a read; the password path calls
+   scrypt at most once with the constant parameters, the key path never.
+   Two surfaces were FALSE on the code as pinned (genuine defects, repaired by fix: commits); the refutations
+   are kept as theorems about the legacy variants of the model (C09_*_refuted_before_fix).
+   PARTIAL — not modelled here: the command-line argument parser and the process exit status ("Error:" line,
+   exit 0/1); actual heap use of the Rust process (measured, not proved). *)
+From Kestrel Require Import Bytes Outcome IO IOFacts Prims.
+From Kestrel.gen Require Import Extracted.
+From Kestrel.Model Require Import AeadWrap Chunks Noise NoiseSpec Files EventPreds FilesSpec ChunksSpec ChunksRobustDefs
+  CombineDefs KeyringText KeyringSpec Keyring.
+From Kestrel.Proofs Require Import ChunksEnc ChunksRobust NoiseFacts PrimFacts KeyringRefine KeyringFacts
+  CombineFiles CombineRobust.
+Local Open Scope N_scope.
+
+(* ENCRYPTED FILE, key mode.  For EVERY io state — any offered bytes of any length, any read / write / flush script — and every 32-byte recipient private key: the result of key_decrypt is Ok or Err, never Panic, never OutOfFuel *)
+Theorem C09_key_decrypt_no_panic :
+  forall P : prims,
+  hash_ok P ->
+  forall (r : list N) (rpk : bytes) (s : io) (res : outcome derr bytes) (s' : io),
+  length r = 32%nat -> key_decrypt P r rpk s = (res, s') -> normal res.
+Proof. exact (key_decrypt_no_panic). Qed.
+Print Assumptions C09_key_decrypt_no_panic.
+
+(* the same as an explicit dichotomy *)
+Theorem C09_key_decrypt_total :
+  forall P : prims,
+  hash_ok P ->
+  forall (r : list N) (rpk : bytes) (s : io),
+  length r = 32%nat ->
+  (exists (spk : bytes) (s' : io), key_decrypt P r rpk s = (Ok spk, s')) \/
+  (exists (e : derr) (s' : io), key_decrypt P r rpk s = (Err e, s')).
+Proof. exact (key_decrypt_no_panic'). Qed.
+Print Assumptions C09_key_decrypt_total.
+
+(* ENCRYPTED FILE, password mode: every io state, every password *)
+Theorem C09_pass_decrypt_no_panic :
+  forall P : prims,
+  hash_ok P ->
+  forall (pw : bytes) (s : io) (res : outcome derr unit) (s' : io),
+  pass_decrypt P pw s = (res, s') -> normal res.
+Proof. exact (pass_decrypt_no_panic). Qed.
+Print Assumptions C09_pass_decrypt_no_panic.
+
+(* the same as an explicit dichotomy *)
+Theorem C09_pass_decrypt_total :
+  forall P : prims,
+  hash_ok P ->
+  forall (pw : bytes) (s : io),
+  (exists s' : io, pass_decrypt P pw s = (Ok tt, s')) \/
+  (exists (e : derr) (s' : io), pass_decrypt P pw s = (Err e, s')).
+Proof. exact (pass_decrypt_no_panic'). Qed.
+Print Assumptions C09_pass_decrypt_total.
+
+(* chunk layer: every io state, every 32-byte key, every associated data, every chunk size (the fuel given to the model loop always suffices) *)
+Theorem C09_decrypt_chunks_no_panic :
+  forall (P : prims) (key aad : bytes) (cs : N),
+  length key = 32%nat ->
+  forall (s : io) (res : outcome derr unit) (s' : io),
+  decrypt_chunks P key aad cs s = (res, s') -> res = Ok tt \/ (exists e : derr, res = Err e).
+Proof. exact (dec_no_panic). Qed.
+Print Assumptions C09_decrypt_chunks_no_panic.
+
+(* NOISE HANDSHAKE MESSAGE: for every message of every length (0, short, 128, longer than 65535, ...) noise_decrypt returns Ok or Err *)
+Theorem C09_noise_no_panic :
+  forall P : prims,
+  hash_ok P ->
+  forall (r : list N) (rpk prologue msg : bytes),
+  length r = 32%nat -> normal (noise_decrypt P r rpk prologue msg).
+Proof. exact (noise_no_panic). Qed.
+Print Assumptions C09_noise_no_panic.
+
+(* the same as an explicit dichotomy *)
+Theorem C09_noise_total :
+  forall P : prims,
+  hash_ok P ->
+  forall (r : list N) (rpk prologue msg : bytes),
+  length r = 32%nat ->
+  (exists x : bytes * bytes * bytes, noise_decrypt P r rpk prologue msg = Ok x) \/
+  (exists e : noise_err, noise_decrypt P r rpk prologue msg = Err e).
+Proof. exact (noise_no_panic'). Qed.
+Print Assumptions C09_noise_total.
+
+(* in fact: lengths outside 96..65535 are rejected with an error value before anything else happens *)
+Theorem C09_noise_decrypt_closed_form :
+  forall P : prims,
+  hash_ok P ->
+  forall (r : list N) (rpk prologue msg : bytes),
+  length r = 32%nat ->
+  noise_decrypt P r rpk prologue msg =
+  (if noise_len_ok (length msg) then noise_decrypt_spec P r rpk prologue msg else Err NOther).
+Proof. exact (noise_decrypt_eq). Qed.
+Print Assumptions C09_noise_decrypt_closed_form.
+
+(* AEAD CIPHERTEXT (kept): every ciphertext of every length, IETF wrapper *)
+Theorem C09_aead_open_never_panics :
+  forall (P : prims) (key nonce : list N) (ct ad : bytes),
   length key = 32%nat -> length nonce = 12%nat -> normal (chapoly_decrypt_ietf P key nonce ct ad).
-Proof. exact aead_decrypt_normal. Qed.
+Proof. exact (aead_decrypt_normal). Qed.
 Print Assumptions C09_aead_open_never_panics.
 
-Theorem C09_noise_aead_open_never_panics : forall P key n ct ad,
+(* (kept) Noise-style wrapper, every counter *)
+Theorem C09_noise_aead_open_never_panics :
+  forall (P : prims) (key : list N) (n : N) (ct ad : bytes),
   length key = 32%nat -> normal (chapoly_decrypt_noise P key n ad ct).
-Proof. exact noise_decrypt_normal. Qed.
+Proof. exact (noise_decrypt_normal). Qed.
 Print Assumptions C09_noise_aead_open_never_panics.
 
-(* finding F1 (repaired in /repo by a fix: commit): the code as pinned panicked on short ciphertexts *)
-Theorem C09_aead_short_ct_refuted_before_fix : forall P key nonce ad,
-  length key = 32%nat -> length nonce = 12%nat ->
-  exists ct, chapoly_decrypt_ietf_gen P true key nonce ct ad = Panic PArith.
-Proof. exact aead_legacy_refuted. Qed.
+(* inputs shorter than the 16-byte tag are an error value *)
+Theorem C09_aead_short_is_error :
+  forall (P : prims) (key nonce ct : list N) (ad : bytes),
+  length key = 32%nat ->
+  length nonce = 12%nat ->
+  (length ct < 16)%nat -> chapoly_decrypt_ietf P key nonce ct ad = Err ChaPolyDecryptError.
+Proof. exact (aead_short_is_error). Qed.
+Print Assumptions C09_aead_short_is_error.
+
+(* ENCODED PUBLIC KEY: every string accepted by EncodedPk::try_from decodes to a key or to the checksum error *)
+Theorem C09_decode_public_key_never_panics :
+  forall P : prims,
+  hash_ok P ->
+  forall e : text,
+  pk_string_ok e = true ->
+  (exists pk : bytes, decode_public_key P e = Ok pk) \/ decode_public_key P e = Err PublicKeyChecksum.
+Proof. exact (decode_never_panics). Qed.
+Print Assumptions C09_decode_public_key_never_panics.
+
+(* LOCKED PRIVATE KEY: every string accepted by EncodedSk::try_from, every password: a 32-byte key, or PrivateKeyFormat, or PrivateKeyDecrypt *)
+Theorem C09_unlock_no_panic :
+  forall P : prims,
+  aead_ok P ->
+  hash_ok P ->
+  forall (locked : text) (pw : bytes),
+  sk_string_ok locked = true ->
+  (exists sk : bytes, unlock_private_key P locked pw = Ok sk /\ length sk = 32%nat) \/
+  unlock_private_key P locked pw = Err PrivateKeyFormat \/
+  unlock_private_key P locked pw = Err PrivateKeyDecrypt.
+Proof. exact (unlock_no_panic). Qed.
+Print Assumptions C09_unlock_no_panic.
+
+(* KEYRING FILE: for every text (and whatever the two key-string checks are) the parser returns Ok or Err *)
+Theorem C09_parse_total :
+  forall (pk_ok sk_ok : text -> bool) (t : text), normal (parse_config pk_ok sk_ok t).
+Proof. exact (parse_total). Qed.
+Print Assumptions C09_parse_total.
+
+(* (encrypt side, for completeness) every io state: encrypt_chunks returns Ok or Err *)
+Theorem C09_encrypt_no_panic :
+  forall (P : prims) (key aad : bytes) (cs : N) (s s' : io) (r : outcome eerr unit),
+  length key = 32%nat -> encrypt_chunks P key aad cs s = (r, s') -> ok_or_err r.
+Proof. exact (enc_no_panic). Qed.
+Print Assumptions C09_encrypt_no_panic.
+
+(* BOUNDED WORK, chunk layer: every Read::read call of any run asks for at most chunk_size + 16 bytes, whatever the length fields in the offered bytes say *)
+Theorem C09_bounded_reads :
+  forall (P : prims) (key aad : bytes) (cs : N) (s : io) (res : outcome derr unit) (s' : io),
+  decrypt_chunks P key aad cs s = (res, s') ->
+  exists d : list event,
+    log s' = d ++ log s /\
+    (forall e : event,
+     In e d ->
+     match e with
+     | EvRead req _ | EvReadErr req _ => (req <= N.to_nat cs + 16)%nat
+     | _ => True
+     end).
+Proof. exact (dec_bounded_reads). Qed.
+Print Assumptions C09_bounded_reads.
+
+(* FILE level, key mode, every io state: every read request is at most N.to_nat 65536 + 16 bytes *)
+Theorem C09_key_decrypt_bounded_reads :
+  forall (P : prims) (r rpk : bytes) (s : io) (res : outcome derr bytes) (s' : io),
+  key_decrypt P r rpk s = (res, s') ->
+  exists d : list event, log s' = d ++ log s /\ Forall (read_req_le (N.to_nat cs_const + 16)) d.
+Proof. exact (key_decrypt_bounded_reads). Qed.
+Print Assumptions C09_key_decrypt_bounded_reads.
+
+(* FILE level, password mode, every io state: reads bounded likewise, and the run contains at most ONE scrypt call, on (password, the 32 bytes following the magic), with the constant parameters N = 32768, r = 8, p = 1 — no header field can raise the key-derivation cost *)
+Theorem C09_pass_decrypt_bounded :
+  forall (P : prims) (pw : bytes) (s : io) (res : outcome derr unit) (s' : io),
+  pass_decrypt P pw s = (res, s') ->
+  exists d : list event,
+    log s' = d ++ log s /\
+    Forall (read_req_le (N.to_nat cs_const + 16)) d /\
+    (kdf_events d = [] \/
+     (exists salt : list N, length salt = 32%nat /\ kdf_events d = [EvKdf pw salt 32768 8 1])).
+Proof. exact (pass_decrypt_bounded). Qed.
+Print Assumptions C09_pass_decrypt_bounded.
+
+(* the bound as a number: 65552 *)
+Theorem C09_read_bound_value :
+  N.of_nat (N.to_nat cs_const + 16) = 65552.
+Proof. exact (file_read_bound_val). Qed.
+Print Assumptions C09_read_bound_value.
+
+(* key mode never calls scrypt and never seals: every event of a run is a read, write, flush or AEAD-open event *)
+Theorem C09_key_decrypt_event_classes :
+  forall (P : prims) (r rpk : bytes) (s : io) (res : outcome derr bytes) (s' : io),
+  key_decrypt P r rpk s = (res, s') -> exists d : list event, log s' = d ++ log s /\ Forall dec_ev d.
+Proof. exact (key_decrypt_event_classes). Qed.
+Print Assumptions C09_key_decrypt_event_classes.
+
+(* (kept) finding F1, repaired in /repo by a fix: commit: the code as pinned panicked on ciphertexts shorter than the tag *)
+Theorem C09_aead_short_ct_refuted_before_fix :
+  forall (P : prims) (key nonce : list N) (ad : bytes),
+  length key = 32%nat ->
+  length nonce = 12%nat ->
+  exists ct : bytes, chapoly_decrypt_ietf_gen P true key nonce ct ad = Panic PArith.
+Proof. exact (PrimFacts.aead_legacy_refuted). Qed.
 Print Assumptions C09_aead_short_ct_refuted_before_fix.
+
+(* finding F2, repaired likewise: the Noise responder as pinned panicked on short messages ... *)
+Theorem C09_noise_short_msg_refuted_before_fix :
+  forall P : prims,
+  hash_ok P ->
+  forall r rpk prologue : bytes,
+  exists msg : bytes, noise_decrypt_gen P true r rpk prologue msg = Panic PAssert.
+Proof. exact (noise_legacy_refuted). Qed.
+Print Assumptions C09_noise_short_msg_refuted_before_fix.
+
+(* ... namely on every message shorter than 64 bytes *)
+Theorem C09_noise_short_msg_panics_before_fix :
+  forall P : prims,
+  hash_ok P ->
+  forall (r rpk prologue : bytes) (msg : list N),
+  (length msg < 64)%nat -> noise_decrypt_gen P true r rpk prologue msg = Panic PAssert.
+Proof. exact (noise_legacy_short_panics). Qed.
+Print Assumptions C09_noise_short_msg_panics_before_fix.
+
